@@ -5,45 +5,58 @@ CONFIG = {
         "name": "pipe.chain", "harness": "pipeh", "driver": "drv_pipe",
         "flush": True,
         "crash_signature": "harness:crash",
-        "n": {"quick": 4800, "thorough": 48000, "search": 9600},
+        "n": {"quick": 4000, "thorough": 40000, "search": 8000},
         "shards": {"quick": 16, "thorough": 16, "search": 16},
         "timeout_s": 2400,
         "rule": "seeded generator, 4 of 10 ops are whole j5s packages built from a structured description (0-5 objects / oneofs / "
                 "enums with forced self and mutual recursion, every scalar and field type in schema, request, response and path "
                 "position, inline objects / oneofs / enums, arrays and maps; 1-3 services with base paths, every HTTP verb, 0-3 "
                 "path parameters, methods without response, list methods over (recursive) objects with filterable / sortable / "
-                "searchable fields and enum default filters; publish / reqres / upsert / event topics; entities; optionally two "
-                "source files; rarely an inline field hoisted under the name of a declared schema) that the real compiler accepts (candidates "
-                "it rejects are replaced and counted), taken through compile -> image (direct and printed-.proto route) -> "
+                "searchable fields (also on timestamp and oneof fields) and enum default filters in both spellings; flattened object "
+                "fields incl. objects flattening themselves and each other; recursion through oneofs, arrays and maps; publish / reqres / "
+                "upsert / event topics; entities with shard keys and 0-2 command services, rarely without events; optionally two "
+                "source files; rarely an inline field hoisted under the name of a declared schema; rarely a QueryRequest on a method whose "
+                "response is not list shaped) that the real compiler accepts (candidates it rejects are replaced and counted; packages with an "
+                "enum default filter naming no option are kept as a 'compiler must reject' class), taken through compile -> image (direct and printed-.proto route) -> "
                 "structure.APIFromImage -> j5client.APIFromSource -> codec.ProtoToJSON -> export.BuildSwagger + json.Marshal in a "
                 "worker process, each stage under recover + timeout; 6 of 10 ops are kernels: producer path rewrite "
                 "(j5convert.ConvertJ5File), consumer path rewrite and service / method / message naming tests "
                 "(structure.APIFromImage on hand-built descriptors, incl. malformed patterns), request split "
                 "(j5client.APIFromSource on a hand-built source API), schema walks on random graphs with cycles and unresolved "
-                "references, OpenAPI conversion of random field trees incl. malformed ones (export.ConvertRootSchema). "
+                "references and flattened edges, OpenAPI conversion of random field trees incl. malformed ones (export.ConvertRootSchema), "
+                "OpenAPI path grouping (export.BuildSwagger on operation lists sharing paths). "
                 "Non-trivial = a package that went through all stages, a rewrite with a parameter, a split with a path "
                 "parameter, an accepted name, a graph with a direct reference edge; distinct by op text.",
     }],
     "trusted_base": [
         "Lean 4.33.0 kernel; axioms propext, Classical.choice, Quot.sound",
-        "hand-written models J5V/Pipe/{Path,Names,Split,Walk,List,Swagger,Service}.lean of internal/j5s/j5convert/service.go (path rewrite), "
+        "hand-written models J5V/Pipe/{Path,Names,Split,Walk,Flatten,List,ListRequest,Client,Entity,Swagger,Service}.lean of internal/j5s/j5convert/service.go (path rewrite), "
         "internal/j5s/sourcewalk/{service,topic}.go (names), internal/structure/build_package.go (addStructure, buildMethod, "
         "buildTopicMethod), internal/j5client/{package_from_source,list,j5package}.go (methodFromSource, fillRequest, "
-        "buildListRequest rule table, collectPackageRefs), lib/j5schema/schema_walk.go, lib/j5schema/schema_set.go (assertRefsLink), "
-        "internal/export/convert.go (convertSchema's recursion), validated by the pipe.chain stream only",
+        "buildListRequest, collectPackageRefs), lib/j5schema/schema_walk.go, lib/j5schema/schema_set.go (assertRefsLink), "
+        "lib/j5schema/root_schema.go (ClientProperties / OptionByName), lib/j5schema/schema_from_proto.go (buildEnum's prefix), "
+        "internal/j5s/j5convert/{fields,summary}.go (enum default filter check), internal/export/convert.go (convertSchema's recursion), "
+        "internal/export/swagger.go (addMethod's path grouping), validated by the pipe.chain stream only",
+        "J5V/Compile/Entity.lean (+ SourceDef) of the compile cluster: the services an entity generates (query service, command services); "
+        "validated differentially there (C17) and here through every chain op with an entity",
         "J5V/Compile/Strcase.lean (strcase v0.3.0 ToSnake / ToCamel, path.Join / path.Clean) - owned by the compile cluster, "
         "validated differentially there and here through every rewrite / chain op",
-        "the driver's translation of an op into model input (token parser, hoisting of inline schemas into named graph nodes)",
+        "the driver's translation of an op into model input (token parser, hoisting of inline schemas into named graph nodes, the schema "
+        "shapes of an entity's Keys / Data / Status / State / EventType / Event, the list-relevant part of the built-in "
+        "j5.state.v1.StateMetadata / EventMetadata)",
         "extract/pipe.go (go/ast) and the Go harness internal/verifh/pipeh (generator, renderer to j5s text, oracle, canonical summary)",
         "image building (protodesc / protoprint + protocompile), schema reflection (lib/j5schema readers), JSON rendering "
-        "(internal/codec) and OpenAPI assembly (internal/export beyond convertSchema: paths, operations, JSON marshalling) are NOT modelled: they are reached only by the stream's oracle "
+        "(internal/codec) and OpenAPI assembly (internal/export beyond convertSchema and the path grouping: operations, parameters, JSON marshalling) are NOT modelled: they are reached only by the stream's oracle "
         "on generated packages (partial)",
     ],
     "assumptions": [
-        "a package is 'valid' when the real compiler accepts it (one known exception is recorded: enum default filters the compiler "
-        "does not check); packages the generator cannot produce (flattened objects, "
-        "imports of other local packages, auth / method options, hand-written .proto files in the bundle) are not covered",
-        "entity-generated services are checked by the declaration-independent part of the oracle only (their expansion is C17's model)",
+        "a package is 'valid' when the real compiler accepts it (recorded exceptions: a QueryRequest method whose response is not list "
+        "shaped, an entity without events); packages the generator cannot produce (imports of other local packages, auth / method "
+        "options, hand-written .proto files in the bundle, exported `any` member objects, entity summaries / query options, flatten on "
+        "inline objects) are not covered",
+        "nothing below j5.state.v1 Cause carries list rules (the driver leaves that subtree out of the built-in EventMetadata node)",
+        "BuildSwagger only takes the declared services of a package: entity-generated methods are absent from the OpenAPI document "
+        "(observation, not in the statement of C16)",
         "protobuf's ByName lookup returns the unique field of that name (field names are unique in a linked descriptor)",
     ],
 }
